@@ -627,7 +627,7 @@ func main() {
 	}
 	workerPhase()
 	run.Set("configurations", len(cfgs))
-	run.Rule("state = canonical (healthStatus, age of last completed check saturated just above 3 intervals, trailing failure run) reached by a history of events {check(vector over ok/error/timeout per token), advance(1 | 3 | 3+1ns intervals; thorough adds 1ns and 3 intervals-1ns in one depth-bounded configuration); one configuration with tokens.<name>.ratelimit set adds drain-token-budgets (a key lookup per token through the real handler, once per history)} replayed on a fresh real server.New; BFS to fixpoint per configuration; GET /health compared with the reference predicate in every state; Close (twice) at every transition target and, for every check transition, with the first ping of that check still outstanding: the round in flight may finish, no further round may start, the loop goroutine must end; the real daemon (loopback listeners, virtual grace period) shut down with each of {no fault, a listener whose Close fails, a request still inside a token operation when the grace period ends}: after Daemon.Close the loop goroutine is gone and the tokens are closed; the worker process's own check loop (cmdline/workercmd healthCheck on the real code, getppid / token ping / ticker and check deadline answered by the harness): every history over {ping ok | error | no answer before the deadline, parent replaced by pid 1, parent replaced by a subreaper} up to depth 4 (thorough 6), for a server that is an ordinary process and one that is pid 1: the loop stops the worker exactly when the parent it started under is gone or a check failed, and goes on otherwise. distinct_nontrivial = distinct canonical states other than the initial one")
+	run.Rule("state = canonical (healthStatus, age of last completed check saturated just above 3 intervals, trailing failure run) reached by a history of events {check(vector over ok/error/timeout per token), advance(1 | 3 | 3+1ns intervals; thorough adds 1ns and 3 intervals-1ns in one depth-bounded configuration); one configuration with tokens.<name>.ratelimit set adds drain-token-budgets (a key lookup per token through the real handler, once per history)} replayed on a fresh real server.New; BFS to fixpoint per configuration; GET /health compared with the reference predicate in every state; Close (twice) at every transition target and, for every check transition, with the first ping of that check still outstanding: the round in flight may finish, no further round may start, the loop goroutine must end; the real daemon (loopback listeners, virtual grace period) shut down with each of {no fault, a listener whose Close fails, a request still inside a token operation when the grace period ends}: after Daemon.Close the loop goroutine is gone and the tokens are closed; the worker process's own check loop (cmdline/workercmd healthCheck on the real code, getppid / token ping / ticker and check deadline answered by the harness): every history over {ping ok | error | returns the context's error at the deadline | does not return at all (a token that ignores its context), parent replaced by pid 1, parent replaced by a subreaper} up to depth 4 (thorough 6), for a server that is an ordinary process and one that is pid 1: the loop stops the worker exactly when the parent it started under is gone or a check failed, and goes on otherwise. distinct_nontrivial = distinct canonical states other than the initial one")
 	run.Assume("token Ping order inside one check is map order; the reference treats the per-check outcome vector as a multiset")
 	run.Assume("goroutine exit after Close is observed by polling runtime.Stack for up to 10 s (correct code exits in microseconds)")
 	run.Assume("the loop is driven only through what it waits on (virtual timers / tickers, token pings); a loop that starts more than 3 rounds of pings per wake-up is held at the next ping, judged and closed there, and not expanded further")
